@@ -225,6 +225,8 @@ def call(self, e, want=None):
             if has_self:
                 recv, tr_ = self.expr_top(args[0])
                 xs = self.call_args(args[1:], ptys)
+                if self.tr.defs[lean].get('kbits'):
+                    xs = [self.kbits_arg(self.tr.defs[lean])] + xs
                 return f'({lean} {recv} {" ".join(xs)})'.replace(' )', ')'), rty
             xs = self.call_args(args, ptys)
             return (f'({lean} {" ".join(xs)})' if xs else f'({lean} (α := α))'), rty
@@ -304,6 +306,8 @@ def self_method(self, owner, recv_s, name, args, want):
             pass
     lean, ptys, rty = self.tr.request(owner, name, c.kind, hint)
     xs = self.call_args(args, ptys)
+    if self.tr.defs[lean].get('kbits'):
+        xs = [self.kbits_arg(self.tr.defs[lean])] + xs
     return f'({lean} {recv_s}{"".join(" " + x for x in xs)})', rty
 
 
@@ -610,3 +614,19 @@ def apply_closurev(self, cv, args):
 
 FnTr.inline_call = inline_call
 FnTr.apply_closurev = apply_closurev
+
+
+def kbits_arg(self, callee):
+    """the width argument for a kind-dependent callee"""
+    from registry import BITS as _B
+    c = self.c
+    ck = callee.get('kind')
+    if c.kind and ck and kind_class(c.kind) == kind_class(ck) and c.fi is not None and c.fi.trait is not None:
+        from core import is_kind_dependent
+        if is_kind_dependent(c.fi):
+            c.uses_kbits = True
+            return 'kbits'
+    return str(_B.get(ck, 64))
+
+
+FnTr.kbits_arg = kbits_arg
